@@ -108,6 +108,8 @@ UVWS = {
     'neg': [[1, 0, -1], [0, 1, 0], [1, 0, 1]],                # det 2
     'det3': [[1, 1, 1], [-1, 1, 0], [0, -1, 1]],              # det 3
     'det4': [[2, 0, 0], [0, 1, 1], [0, -1, 1]],               # det 4
+    'lefthand': [[0, 1, 0], [1, 0, 0], [0, 0, 1]],            # det -1 (left-handed order: normalize reverses the third vector)
+    'left_det2': [[1, 1, 0], [1, -1, 0], [0, 0, 1]],          # det -2
 }
 
 
@@ -136,7 +138,7 @@ def h_rotate(cname, uname, sub):
         nb = new.box; nV = np.asarray(nb.vects, dtype=float); nO = np.asarray(nb.origin, dtype=float)
         ob = [('atom count == |det| * natoms', new.natoms == det * 2), ('volume == |det| * volume', abs(nb.volume - det * abs(np.linalg.det(V))) < 1e-9 * nb.volume),
               ('result is LAMMPS compatible', bool(nb.is_lammps_norm())), ('returned transformation is a proper rotation', np.allclose(T.dot(T.T), np.eye(3), atol=1e-9) and abs(np.linalg.det(T) - 1) < 1e-9),
-              ('new cell vectors are the rotated integer combinations of the old ones', np.allclose(nV, U.dot(V).dot(T.T), atol=1e-9))]
+              ('new cell vectors are the rotated integer combinations of the old ones (third one reversed for a left-handed set)', np.allclose(nV, (U.dot(V) * (np.array([[1], [1], [-1]]) if np.linalg.det(U.dot(V)) < 0 else 1)).dot(T.T), atol=1e-9))]
         if new.natoms != det * 2: return ob
         inv_n = np.linalg.inv(nV); inv_o = np.linalg.inv(V)
         counts = [0, 0]
@@ -218,7 +220,7 @@ def cases(tier, seed=0):
         cs.append(Case('supersize_' + '_'.join(str(x).replace(' ', '') for x in sz), h_supersize(sz), bind=BIND, budget_s=170 if tier == 'quick' else 900, timeout_ms=15000,
                        descr=f'supersize{sz} on a symbolic cell with 2 symbolic atoms'))
     cs.append(Case('supersize_refusals', h_supersize_refuse(), concrete_only=True, budget_s=60, descr='documented refusals of supersize'))
-    combos = [('cubic', '110'), ('cubic', 'det3'), ('ortho_origin', 'swap'), ('ortho_origin', 'det4'), ('hex', 'shear'), ('hex', 'neg'), ('triclinic', '110'), ('triclinic', 'neg')]
+    combos = [('triclinic', 'lefthand'), ('ortho_origin', 'left_det2'), ('cubic', '110'), ('cubic', 'det3'), ('ortho_origin', 'swap'), ('ortho_origin', 'det4'), ('hex', 'shear'), ('hex', 'neg'), ('triclinic', '110'), ('triclinic', 'neg')]
     if tier == 'thorough': combos = list(itertools.product(CELLS, UVWS))
     for cn, un in combos:
         for n, sub in enumerate([[(0.05, 0.45)] * 3, [(0.55, 0.95), (0.05, 0.45), (0.55, 0.95)]] if tier == 'quick' else [[(a, a + 0.45) for a in lo] for lo in itertools.product((0.03, 0.52), repeat=3)]):
